@@ -177,9 +177,11 @@ PLAN["C15"] = {"quick": [job("native", "cell", 16, 600), job("native", "public",
 LEVEL["C17"] = "exploration"
 RULES["C17"] = ("model: every sequence over {write, read, open, close} up to the stated length on EventBuffer (capacities 1-4, initially open/closed) and EventSlot vs a VecDeque/Option model, plus long random "
                 "sequences with drains on capacities up to 64; order: generated DAG benches with sinks on ST / controlled ST / MT, the sub-sequence of events of one (model, output, connection) read from a "
-                "buffer must equal the sending order; non-trivial = sequence with an overflowing/overwriting write or a write ignored while closed (model), sink connection that carried >= 2 events (order)")
-PLAN["C17"] = {"quick": [job("native", "model", 16, 600), job("native", "order", 16, 600)],
-               "thorough": [job("native", "model", 16, 3000), job("native", "order", 16, 3000), miri("model", 1, 1, 3000), miri("order", 2, 4, 3000)],
+                "buffer must equal the sending order; flood: 2-8 emitter models on 2-16 worker threads write bursts of (writer, seq) events into one buffer in the same step (storage growing by reallocation), "
+                "in half of the unbounded cases a helper thread steps while the harness drains concurrently; per writer the events read must be 0,1,2,... (unbounded) or a consecutive run ending with the newest event, at most `capacity` in total (bounded); non-trivial = sequence with an overflowing/overwriting write or a write ignored while closed (model), sink connection that carried >= 2 events (order), flood case")
+PLAN["C17"] = {"quick": [job("native", "model", 16, 600), job("native", "order", 16, 600), job("native", "flood", 16, 600)],
+               "thorough": [job("native", "model", 16, 3000), job("native", "order", 16, 3000), job("native", "flood", 16, 3000), miri("model", 1, 1, 3000), miri("order", 2, 4, 3000), miri("flood", 2, 4, 3000),
+                            job("tsan", "flood", 8, 1800, args=["--scale", "0.02"])],
                "min_evaluations": {"quick": 1000, "thorough": 1000}, "assumptions": COMMON_ASSUMPTIONS + ["single-threaded access to a sink's reader side (concurrent reads of a slot are unspecified by the API)"],
                "exhaustive_note": "part 'model' enumerates every operation sequence of the length given in coverage.exhaustive_len"}
 
